@@ -128,6 +128,8 @@ package raft
 //@ inv [I6] r.state != Shutdown ==> r.configuration != nil && r.followers != nil
 //@ inv [I6b] r.followers != nil ==> forall id string :: id in r.followers ==> r.followers[id] != nil
 //@ inv [I7] persTerm == r.currentTerm && persVote == r.votedFor
+// Ifol: a running node keeps replication state for every member of its configuration
+//@ inv [Ifol] r.state != Shutdown ==> forall id string :: id in r.configuration.Members ==> id in r.followers
 //@ inv [I13] r.state == Leader ==> forall fid string :: fid in r.followers ==> r.followers[fid].nextIndex <= Llast + 1
 //@ inv [Isnap] r.snapshot != nil ==> sfWriter[r.snapshot] && !sfPublished[r.snapshot]
 // Iseq: a snapshot that is being received was created after every published snapshot, so that it
@@ -135,6 +137,8 @@ package raft
 //@ inv [Iseq] 0 <= snapSeq && snapSeq < sfNext
 //@ inv [Iseq2] forall f int :: sfSeq[f] < sfNext
 //@ inv [Iseq3] r.snapshot != nil ==> snapSeq < sfSeq[r.snapshot]
+// Isnap3: a node whose log starts at a snapshot has a published snapshot
+//@ inv [Isnap3] r.lastIncludedIndex > 0 ==> snapSeq > 0
 // Isnap2: the snapshot files a leader keeps open per follower are readers (closing one publishes nothing)
 //@ inv [Isnap2] forall fo *follower :: fo.snapshot != nil ==> !sfWriter[fo.snapshot] && allocated(fo.snapshot)
 //@ inv [Iopen] (r.state != Shutdown ==> logOpen) && (r.configuration == nil ==> logOpen)
@@ -152,6 +156,9 @@ package raft
 // S8 (per section, not a rely): an atomic section that takes the node out of the leader state leaves
 // it with empty tables of pending futures (they were answered with ErrNotLeader).
 //@ sectguar [S8] old(r.state) == Leader && r.state != Leader && r.state != Shutdown ==> (forall k uint64 :: !(k in r.operationManager.pendingReplicated)) && (forall o *Operation :: !(o in r.operationManager.pendingReadOnly))
+// Sdown (per section): only start() takes a node out of the Shutdown state - in particular no reply
+// that arrives after Stop() revives it.
+//@ sectguar [Sdown] old(r.state) == Shutdown ==> r.state == Shutdown
 //@ guar [Gopen] old(logOpen) && r.state != Shutdown ==> logOpen
 //@ guar [Gclk] now >= old(now)
 // GL (leader append-only): used as rely under assumption A-LEAD-ONCE (a node does not enter the
@@ -329,7 +336,11 @@ package raft
 //@   requires [pre-L] 0 <= Llast
 //@   requires [pre-I6b] forall fid string :: fid in r.followers ==> r.followers[fid] != nil
 //@   requires [pre-readers] forall fo *follower :: fo.snapshot != nil ==> !sfWriter[fo.snapshot] && allocated(fo.snapshot)
+//@   requires [pre-Ifol] forall id string :: id in r.configuration.Members ==> id in r.followers
 //@   ensures [config] r.configuration == next
+//@   ensures [Ifol] forall id string :: id in next.Members ==> id in r.followers
+//@   loop range r.configuration.Members invariant [Ifol] forall id string :: id in r.configuration.Members && id in next.Members ==> id in r.followers
+//@   loop range next.Members invariant [Ifol] forall id string :: id in next.Members && (id in r.configuration.Members || id in visited) ==> id in r.followers
 //@   ensures [snap-frame] snapSeq == old(snapSeq) && snapIndex == old(snapIndex) && snapTerm == old(snapTerm) && sfNext == old(sfNext) && sfSeq == old(sfSeq)
 //@   ensures [readers] forall fo *follower :: fo.snapshot != nil ==> !sfWriter[fo.snapshot] && allocated(fo.snapshot)
 //@   ensures [I6b] forall fid string :: fid in r.followers ==> r.followers[fid] != nil
@@ -506,6 +517,7 @@ package raft
 
 //@ func Raft.sendAppendEntries
 //@   flags splitexits
+//@   assume [A-NOOVF] Llast < 17592186044416
 //@   requires [spawn-self-counted] numResponses != nil ==> *numResponses == 1
 //@   release s1 [leader-id] r.state == Leader && request.Term == r.currentTerm && request.LeaderID == r.id
 //@   release s1 [wf] WF(request) && request.LeaderCommit == r.commitIndex && r.lastIncludedIndex <= request.PrevLogIndex
@@ -629,7 +641,7 @@ package raft
 //@ callers operationManager.markAsVerified = Raft.tryApplyReadOnlyOperations
 //@ callers Raft.tryApplyReadOnlyOperations = Raft.sendAppendEntries Raft.sendAppendEntriesToPeers
 //@ callers Raft.becomeLeader = Raft.sendRequestVote Raft.sendRequestVoteToPeers
-//@ callers Raft.becomeCandidate = Raft.election Raft.sendRequestVoteToPeers
+//@ callers Raft.becomeCandidate = Raft.sendRequestVote Raft.sendRequestVoteToPeers
 
 // ===========================================================================================
 // Snapshots (C10, C11): ghost model of snapshot files and the InstallSnapshot handler
@@ -670,7 +682,7 @@ package raft
 //@   modifies sfIndex, sfTerm, sfConf, sfPos, sfWriter, sfPublished
 //@   ensures ioOK ==> err == nil
 //@   ensures err == nil && file != nil ==> fresh(file) && sfIndex[file] == snapIndex && sfTerm[file] == snapTerm && sfPos[file] == 0 && !sfWriter[file]
-//@   ensures err == nil && snapIndex > 0 ==> file != nil
+//@   ensures err == nil && (snapIndex > 0 || snapSeq > 0) ==> file != nil
 //@   ensures forall g int :: g != file ==> sfIndex[g] == old(sfIndex[g]) && sfTerm[g] == old(sfTerm[g]) && sfConf[g] == old(sfConf[g]) && sfPos[g] == old(sfPos[g]) && sfWriter[g] == old(sfWriter[g]) && sfPublished[g] == old(sfPublished[g])
 //@ iface SnapshotFile.Metadata() (md)
 //@   ensures md.LastIncludedIndex == sfIndex[self] && md.LastIncludedTerm == sfTerm[self] && md.Configuration == sfConf[self]
@@ -744,6 +756,7 @@ package raft
 //@   at call r.snapshotStorage.NewSnapshotFile assert [label] arg0 == r.lastApplied && arg1 == Lterm[r.lastApplied] && r.lastApplied > r.lastIncludedIndex && inLog(r.lastApplied) && r.committedConfiguration != nil && r.committedConfiguration.Index <= r.lastApplied
 //@   at call r.fsm.Snapshot assert [snapshot-exact] fsmIndex == sfIndex[snapshot]
 //@   at call snapshot.Close assert [publish-locked] lockheld() && lastAppliedEntry.Index > r.lastIncludedIndex
+//@   at call snapshot.Close assume [A-OWN] sfWriter[snapshot] && !sfPublished[snapshot] && sfSeq[snapshot] > 0
 //@   at call r.log.Compact assert [compact-label] arg0 == r.lastIncludedIndex && r.lastIncludedIndex == lastAppliedEntry.Index && r.lastIncludedTerm == lastAppliedEntry.Term && r.lastIncludedIndex <= r.lastApplied
 //@   at before-assign r.lastIncludedIndex assert [included-monotone] newval > r.lastIncludedIndex
 
